@@ -145,6 +145,19 @@ def main():
                 solver_stat['n'] += 1
                 solver_stat['t'] += time.perf_counter() - s
         z3.Solver.check = timed_check
+        if getattr(mod, 'NO_SOLVER_TIMEOUT', False):
+            # every z3 check with a timeout starts a timer thread (mmap/futex/sched_yield storm when
+            # 16 workers run); harnesses whose solver decisions are trivial (small ints / bools)
+            # switch the per-query timeout off -- the per-condition budget still applies
+            orig_set = z3.Solver.set
+
+            def set_no_timeout(self, *a, **kw):
+                kw.pop('timeout', None)
+                if a and a[0] == 'timeout':
+                    return None
+                if a or kw:
+                    return orig_set(self, *a, **kw)
+            z3.Solver.set = set_no_timeout
         import crosshair.core_and_libs  # noqa: registers the library patches
         if a.verbose:
             from crosshair.util import set_debug
@@ -160,6 +173,11 @@ def main():
             status='error', message='worker: ' + repr(e), traceback=traceback.format_exc()[-3000:])
     sys.stdout.write('\nXRESULT ' + json.dumps(out) + '\n')
     sys.stdout.flush()
+    try:
+        import atexit
+        atexit._run_exitfuncs()      # harness scratch directories
+    except Exception:
+        pass
     os._exit(0)
 
 
